@@ -1,11 +1,12 @@
-"""F4' (C02, open known finding): leaving a FactoryFunctorPool blocks forever when
-   work_queue_maxsize is an int smaller than the number of workers that retired (quota reached) after the replace
+"""F4' (C02, fixed by ccf59e2): leaving a FactoryFunctorPool blocked forever when
+   work_queue_maxsize was an int smaller than the number of workers that retired (quota reached) after the replace
    thread had already taken its stop token: __exit__ puts one None per slot of self.procs into the bounded work queue,
-   nobody takes the ones meant for the dead workers.
+   nobody took the ones meant for the dead workers.  Since the fix a worker announces its retirement before it delivers
+   its last result, over a manager queue, so it is always replaced before the call ends.
 
    Deterministic replay under the controlled scheduler of /verif/harness/sched.py (the unmodified pool code runs on a
    fake multiprocessing context):   /venv/bin/python findings/F4p_exit_hang.py          exit 1 = deadlock reproduced
-   Same schedule in the Coq model: Properties/C02.v, theorem C02_exit_hang_refuted."""
+   (exit 0 on the repaired tree; exit 1 on 71ddeee and earlier).  Coq: Properties/C02.v, C02_concrete_former_hang."""
 import sys
 sys.path.insert(0, "/verif"); sys.path.insert(0, "/repo")
 from harness.props.poolcommon import run_pool_case
